@@ -70,7 +70,7 @@ def gen(rng, scenario, tier):
     if scenario == "accuracy":
         ev, drifts = workload.outcomes(rng, n)
     else:
-        ev, drifts = workload.stream_values(rng, n)
+        ev, drifts = workload.stream_values(rng, n, regimes=("tiny", "lattice"))
     return {"cfg": cfg, "events": ev, "drift_positions": drifts}
 
 
